@@ -253,7 +253,7 @@ func (h *hcache) do(thread int, pop pop) opRec {
 	store := func(expires time.Duration, src func(body []byte) io.Reader, n int) {
 		v := pop.version
 		body := vnet.Body(f[1], v, n)
-		rec.Stored = fmt.Sprintf("%s/v%d/%dB", f[1], v, n)
+		rec.Stored = ident(f[1], v, n)
 		e, err := h.c.Cache(key(), src(body), vtime.Now().Add(expires), vmeta{R: f[1], V: v, N: n})
 		if err != nil {
 			rec.Err = errClass(err)
@@ -264,10 +264,10 @@ func (h *hcache) do(thread int, pop pop) opRec {
 		if rerr != nil {
 			rec.Bad = "reading the handle returned by Cache: " + rerr.Error()
 		} else if string(got) != string(body) {
-			rec.Bad = fmt.Sprintf("handle returned by Cache reads %q, stored %q", got, body)
+			rec.Bad = "handle returned by Cache reads " + strconv.Quote(string(got)) + ", stored " + strconv.Quote(string(body))
 		}
 		rec.Size = e.Metadata.Size
-		rec.Meta = fmt.Sprintf("%s/v%d/%dB", e.Metadata.Object.R, e.Metadata.Object.V, e.Metadata.Object.N)
+		rec.Meta = ident(e.Metadata.Object.R, e.Metadata.Object.V, e.Metadata.Object.N)
 	}
 	plain := func(b []byte) io.Reader { return strings.NewReader(string(b)) }
 	switch f[0] {
@@ -288,7 +288,7 @@ func (h *hcache) do(thread int, pop pop) opRec {
 		}
 		rec.Stale = e.Stale
 		rec.Size = e.Metadata.Size
-		rec.Meta = fmt.Sprintf("%s/v%d/%dB", e.Metadata.Object.R, e.Metadata.Object.V, e.Metadata.Object.N)
+		rec.Meta = ident(e.Metadata.Object.R, e.Metadata.Object.V, e.Metadata.Object.N)
 		half := int(e.Metadata.Size / 2)
 		buf := make([]byte, half)
 		n, rerr := io.ReadFull(e.Data, buf)
@@ -305,7 +305,7 @@ func (h *hcache) do(thread int, pop pop) opRec {
 		if len(rec.Body) >= 3 {
 			at := make([]byte, 2)
 			if n, _ := e.Data.ReadAt(at, 1); n == 2 && string(at) != rec.Body[1:3] {
-				rec.Bad = fmt.Sprintf("ReadAt(1,2)=%q but sequential read gave %q", at, rec.Body[1:3])
+				rec.Bad = "ReadAt(1,2)=" + strconv.Quote(string(at)) + " but sequential read gave " + strconv.Quote(rec.Body[1:3])
 			}
 		}
 		e.Data.Close()
@@ -326,7 +326,7 @@ func (h *hcache) do(thread int, pop pop) opRec {
 		}
 		rec.Stale = stale
 		rec.Size = m.Size
-		rec.Meta = fmt.Sprintf("%s/v%d/%dB", m.Object.R, m.Object.V, m.Object.N)
+		rec.Meta = ident(m.Object.R, m.Object.V, m.Object.N)
 	case "L":
 		h.cfg.Cache.MaxCacheSize.Overwrite(bytesize.ByteSize(atoi(f[1])))
 	case "I":
@@ -346,6 +346,12 @@ func (h *hcache) do(thread int, pop pop) opRec {
 	}
 	rec.Ret = vsched.Stamp()
 	return rec
+}
+
+// ident names a (resource, version, size) without fmt: fmt's sync.Pool would add
+// happens-before edges between harness threads and blunt the race oracle.
+func ident(r string, v, n int) string {
+	return r + "/v" + strconv.Itoa(v) + "/" + strconv.Itoa(n) + "B"
 }
 
 func errClass(err error) string {
